@@ -22,7 +22,7 @@ func init() { runners["C15"] = runC15 }
 func runC15(o *out, r *rng, thorough bool, rp string) {
 	o.Rule = "random EC block trees (null rounds, forks before / at / after the base, heads on the main chain, on a fork, behind the base, chains longer than 128), certificate histories stored in a real certstore whose chains are segments of the finalized line, manifests with head-lookback 0..3, proposal length 1..200, committee look-back 1..3, initial instance 0 or 7, clock positions around the freshness bound; the real gpbftInputs (accessor over the model EC backend) is asked for the proposal and committee of every instance the store allows; results are compared with the Proposal.v model inside Coq and with the clauses of the property evaluated on the tree; non-trivial = the head is not the base and a certificate exists"
 	ctx := context.Background()
-	n := 25
+	n := 80
 	if thorough {
 		n = 600
 	}
